@@ -222,6 +222,13 @@ template<class F> static void fmult(Rng& r, int n, const char* nm)
 		if (!ok) tfail("roundMultiple", g == (F)fl / (F)one ? "returns the previous multiple where the next one is nearer" : (s < 0 ? "floating, negative source (neither the previous nor the nearest multiple)" : "floating, other"), in, str((F)ce / (F)one), str(g));
 		glm::vec<2, F> a(S, (F)1), b(M, (F)2); if (glm::ceilMultiple(a, b).x != glm::ceilMultiple(S, M) || glm::floorMultiple(a, b).x != glm::floorMultiple(S, M) || glm::roundMultiple(a, b).x != glm::roundMultiple(S, M)) tfail("ceilMultiple", "floating vector overload differs from scalar", in, "", "");
 	}
+	// the ends of the floating range: tiny negative and positive sources (down to the denormals) against small multiples, and even integers above
+	// 2^digits, where a remainder computed as x - m * floor(x / m) is no longer exact; every expected value below is representable
+	int dig = std::numeric_limits<F>::digits, emin = std::numeric_limits<F>::min_exponent - dig;
+	for (int k = 1; k < -emin; k += (k < 40 ? 1 : 7)) for (int mi = 1; mi <= 3; ++mi) for (int sg = -1; sg <= 1; sg += 2) { F S = (F)sg * std::ldexp((F)1, -k), M = (F)mi; F ce = sg < 0 ? (F)0 : M, fl = sg < 0 ? -M : (F)0;
+		std::string in = std::string(nm) + " " + str(S) + " m=" + str(M); F g = glm::ceilMultiple(S, M); if (g != ce) tfail("ceilMultiple", "floating, tiny source", in, str(ce), str(g)); g = glm::floorMultiple(S, M); if (g != fl) tfail("floorMultiple", "floating, tiny source", in, str(fl), str(g)); }
+	for (int i = 0; i < 400; ++i) { long long base = (1ll << (dig + 1)) - 2 * (long long)r.range(1, 4000), m = (i % 2) ? 3 : 7; long long q = base / m, fl = q * m, ce = (base % m == 0) ? base : fl + m; if ((ce & 1) || (fl & 1)) continue;   // keep representable results (even integers below 2^(digits+1))
+		F S = (F)base, M = (F)m; std::string in = std::string(nm) + " " + str(S) + " m=" + str(M); F g = glm::ceilMultiple(S, M); if (g != (F)ce) tfail("ceilMultiple", "floating, integer above 2^digits", in, str((F)ce), str(g)); g = glm::floorMultiple(S, M); if (g != (F)fl) tfail("floorMultiple", "floating, integer above 2^digits", in, str((F)fl), str(g)); }
 	tcount(std::string("multiples<") + nm + ">", n);
 }
 static void gtx_integer(Rng& r, int n)
